@@ -473,6 +473,100 @@ def env_whitelist(rep: C.Report) -> None:
         ob.detail += f"{type(e).__name__}: {e}"
 
 
+MT_WALK = r"""
+local p = {}
+function p.list(frame)
+  -- every userdata reachable from the environment (tables to depth 3, the frame included): is its metatable visible?
+  local seen, out = {}, {}
+  local function walk(t, depth, path)
+    if seen[t] or depth > 3 then return end
+    seen[t] = true
+    for k, v in pairs(t) do
+      if type(v) == "userdata" then
+        local ok, mt = pcall(getmetatable, v)
+        out[#out + 1] = path .. "." .. tostring(k) .. "=" .. ((ok and type(mt) == "table") and "VISIBLE" or "hidden")
+      elseif type(v) == "table" then
+        walk(v, depth + 1, path .. "." .. tostring(k))
+      end
+    end
+  end
+  walk(_G, 0, "_G")
+  walk(frame, 0, "frame")
+  table.sort(out)
+  return table.concat(out, ";")
+end
+function p.poison(frame)
+  for k, v in pairs(_G) do
+    if type(v) == "userdata" then
+      local mt = getmetatable(v)
+      if type(mt) == "table" then
+        local ok = pcall(rawset, mt, "__tostring", function() return "HIJACKED" end)
+        return ok and "poisoned" or "refused"
+      end
+    end
+  end
+  return "nothing to poison"
+end
+function p.look(frame)
+  for k, v in pairs(_G) do
+    if type(v) == "userdata" then return tostring(v) end
+  end
+  return "none"
+end
+return p
+"""
+
+
+def python_metatable_hidden(rep: C.Report) -> None:
+    """Ob9: lupa gives every Python object one shared metatable holding the C functions behind calls, attribute access and
+    garbage collection.  Sandboxed code has getmetatable() and rawset(); if the table is visible it can be rewritten, which
+    redirects the calls the HOST part of the sandbox makes to Python (module loader, environment stack) and stays in place
+    for every later invocation and page.  Facts from the live sandbox (a module walks its environment and frame, depth 3):
+    the userdata objects reachable and whether getmetatable() returns a table for them; finite z3 query 'some reachable
+    userdata has a visible metatable'; a hit is replayed: one page rewrites __tostring, a later page observes it."""
+    ob = rep.add(C.Ob("Ob9 the metatable shared by all Python objects is not reachable from sandboxed code", "z3 over facts read from the live sandbox (finite) + behavioural replay across two pages", ["lua/_sandbox_phase1.lua", "lupa: Python-object metatable"], "every userdata reachable from the environment and the frame to table depth 3"))
+    try:
+        from vf.wtpfix import new_ctx, close
+
+        w = new_ctx(modules={"vfmt": MT_WALK})
+        w.start_page("T1")
+        listing = w.expand("{{#invoke:vfmt|list}}")
+        objs = [x.split("=") for x in listing.split(";") if "=" in x]
+        ob.samples.append({"userdata_reachable": len(objs), "visible": [n for n, v in objs if v == "VISIBLE"][:8]})
+        if not objs:
+            close(w)
+            ob.verdict, ob.detail = C.NOT_ENCODABLE, f"no userdata found in the environment walk: {listing[:120]!r}"
+            return
+        s_ = z3.Solver()
+        i = z3.Int("i")
+        vis = z3.Function("visible", z3.IntSort(), z3.BoolSort())
+        for k, (_, v) in enumerate(objs):
+            s_.add(vis(k) == (v == "VISIBLE"))
+        s_.add(i >= 0, i < len(objs), vis(i))
+        r = str(s_.check())
+        ob.queries = ob.paths = ob.conditions = 1
+        if r == "unsat":
+            close(w)
+            ob.verdict = C.DISCHARGED
+            ob.confirmed_conditions = 1
+            return
+        name = objs[s_.model()[i].as_long()][0]
+        before = w.expand("{{#invoke:vfmt|look}}")
+        did = w.expand("{{#invoke:vfmt|poison}}")
+        w.start_page("T2")
+        after = w.expand("{{#invoke:vfmt|look}}")
+        close(w)
+        ob.samples.append({"replay": {"before": before[:60], "poison": did, "later page": after[:60]}})
+        if after == "HIJACKED" and before != "HIJACKED":
+            v_ = rep.violation("page T1: expand('{{#invoke:vfmt|poison}}') (getmetatable(<a Python helper>), rawset(mt, '__tostring', f)); page T2: expand('{{#invoke:vfmt|look}}') (tostring(<a Python helper>))", f"the later page sees {after!r}: the metatable lupa shares between ALL Python objects (__call, __index, __newindex, __gc) is readable and writable from sandboxed code (reachable e.g. as getmetatable({name})), so a module can redirect every call the host side of the sandbox makes to Python, for all later invocations and pages", {"object": name})
+            ob.verdict = C.VIOLATED if v_.known is None else C.KNOWN
+            ob.confirmed_conditions = 1
+        else:
+            ob.detail = f"getmetatable({name}) is a table but the rewrite is not observable on a later page ({did}, {after[:40]!r}) -> inconclusive"
+    except Exception as e:  # noqa: BLE001
+        ob.detail += f"{type(e).__name__}: {e}"
+
+
 def invoke_probe(fn: str, arg: str) -> str:
     from vf.wtpfix import new_ctx, close
 
@@ -508,7 +602,7 @@ def run(rep: C.Report) -> None:
         "is both kept loaded by the host and served by require(); (4) an AST fact about the LuaRuntime construction. Counterexamples are replayed through the real sandbox (#invoke of a probe module)."
     )
     rep.assumptions += ["Lua replays boot the sandbox with a stub for the absent Scribunto ustring submodule", "pathlib join semantics: an absolute right operand discards the left one; '..' components are not resolved lexically"]
-    rep.outside += ["everything executed inside the Lua VM: metatables, closures capturing host values, what the exported Lua functions do internally - only direct (aliased) exports of host capabilities are decided", "symlinks below the package directory"]
+    rep.outside += ["everything executed inside the Lua VM beyond Ob5/Ob6/Ob9: closures capturing host values, what the exported Lua functions do internally - only direct (aliased) exports of host capabilities are decided", "symlinks below the package directory"]
     rep.trusted += ["CrossHair 0.0.110", "z3", "vf/slicer.py", "lupa (fresh runtime for package.loaded)"]
     try:
         src = open(H).read() + "\n" + gen(quick)
@@ -531,6 +625,7 @@ def run(rep: C.Report) -> None:
     runtime_facts(rep)
     env_whitelist(rep)
     host_globals_not_passed(rep)
+    python_metatable_hidden(rep)
 
 
 def replay(r: dict) -> int:
